@@ -153,7 +153,7 @@ func ruleC10c(c *Ctx, rule string) {
 func init() {
 	register(&PropSpec{
 		ID:          "C10",
-		Explanation: "Decides the structural clause 'leader routing and follower filtering are the same function of the same keys, and the hash is reset per point': single routing function, exact inPartition equality, Reset-before-use typestate, canonical (in-place sorted) key lists on both sides, and (with C11.b) whole-query pushdown only for partition-confined groups. Added clauses: every follower entry is partition-tested with the table's own keys; the follower's per-table offset advances only after the hand-over (= C12.a); announced tables (= C12.h).",
+		Explanation: "Decides the structural clause 'leader routing and follower filtering are the same function of the same keys, and the hash is reset per point': single routing function, exact inPartition equality, Reset-before-use typestate, canonical (in-place sorted) key lists on both sides, and (with C11.b) whole-query pushdown only for partition-confined groups. Added clauses: every follower entry is partition-tested with the table's own keys; the follower's per-table offset advances only after the hand-over (= C12.a); announced tables (= C12.h). Further clauses: field-by-field struct copies in package zenodb carry every field; the all-dimensions hash is used only for tables without partition keys.",
 		NotDecided:  []string{"end-to-end equality of results with a standalone database", "plan splitting beyond the pushdown predicate (see C11)", "timing / catch-up of followers"},
 		Assumptions: []string{"murmur3 New32/Write/Sum32 are deterministic"},
 		Rules: []func(*Ctx){func(c *Ctx) { ruleC10a(c, "C10.a") }, func(c *Ctx) { ruleC10b(c, "C10.b") }, func(c *Ctx) { ruleC10c(c, "C10.c") }, func(c *Ctx) { ruleC11b(c, "C10.d") }, func(c *Ctx) { ruleC12b(c, "C10.e") }, func(c *Ctx) { ruleC12c(c, "C10.f") }, func(c *Ctx) { ruleC12h(c, "C10.g") }, func(c *Ctx) {
